@@ -8,9 +8,9 @@ using namespace sim;
 using namespace mpt;
 
 enum { OP_CLONE, OP_RELEASE, OP_APPEND, OP_INSERT, OP_SET, OP_SLICE, OP_RESERVE, OP_REDUCE, OP_CUT, OP_BINSERT, OP_BSET,
-       OP_PRINTF, OP_STRING, OP_FLAGGED, OP_SWRITE, OP_DETACH };
+       OP_PRINTF, OP_STRING, OP_FLAGGED, OP_SWRITE, OP_DETACH, OP_RETYPE };
 static const char *const OPS[] = {"CLONE", "RELEASE", "APPEND", "INSERT", "SET", "SLICE", "RESERVE", "REDUCE", "CUT", "BINSERT", "BSET",
-                                  "PRINTF", "STRING", "FLAGGED", "SWRITE", "DETACH", 0};
+                                  "PRINTF", "STRING", "FLAGGED", "SWRITE", "DETACH", "RETYPE", 0};
 enum { FL_NONE, FL_ALLOC, FL_INIT };
 static const char *const FAULTS[] = {"none", "allocfail", "initfail", 0};
 enum { K_RAW = 0, K_CHAR = 1, K_TRACKED = 2, K_ARRAYS = 3 };
@@ -20,13 +20,13 @@ static const uint32_t MAGIC = 0x454c454du, POISON = 0xdeadbeefu;
 struct Track {
 	std::map<uint32_t, uint32_t> live;   // id -> value
 	uint32_t next_id = 1, next_value = 1;
-	uint64_t inits = 0, finis = 0, init_calls = 0, fail_at = 0, fired = 0;
+	uint64_t inits = 0, finis = 0, init_calls = 0, fail_at = 0, fired = 0; bool fail_from = false;
 	size_t esize = 16;
 } T;
 static int elem_init(void *ptr, const void *src) {
 	Harness h;
 	++T.init_calls;
-	if (T.fail_at && T.init_calls == T.fail_at) { ++T.fired; return -1; }
+	if (T.fail_at && (T.init_calls == T.fail_at || (T.fail_from && T.init_calls > T.fail_at))) { ++T.fired; return -1; }
 	uint32_t value = 0;
 	if (src) {
 		uint32_t m, id; memcpy(&m, src, 4); memcpy(&id, (const uint8_t *) src + 4, 4);
@@ -81,13 +81,13 @@ struct ArraysWorld : World {
 			Op op;
 			static const int raw_ops[] = {OP_CLONE, OP_CLONE, OP_RELEASE, OP_APPEND, OP_APPEND, OP_INSERT, OP_INSERT, OP_SLICE, OP_SLICE, OP_RESERVE, OP_REDUCE, OP_CUT, OP_BINSERT, OP_BSET, OP_SET, OP_FLAGGED, OP_SWRITE, OP_DETACH};
 			static const int chr_ops[] = {OP_CLONE, OP_CLONE, OP_RELEASE, OP_SET, OP_SET, OP_INSERT, OP_SLICE, OP_RESERVE, OP_REDUCE, OP_CUT, OP_PRINTF, OP_PRINTF, OP_STRING, OP_APPEND, OP_BSET, OP_DETACH};
-			static const int trk_ops[] = {OP_CLONE, OP_CLONE, OP_RELEASE, OP_SET, OP_SET, OP_INSERT, OP_SLICE, OP_RESERVE, OP_REDUCE, OP_CUT, OP_CUT, OP_BINSERT, OP_BSET, OP_APPEND, OP_FLAGGED, OP_DETACH};
+			static const int trk_ops[] = {OP_CLONE, OP_CLONE, OP_RELEASE, OP_SET, OP_SET, OP_INSERT, OP_SLICE, OP_RESERVE, OP_REDUCE, OP_CUT, OP_CUT, OP_BINSERT, OP_BSET, OP_APPEND, OP_FLAGGED, OP_DETACH, OP_RETYPE};
 			op.kind = kind == K_RAW ? r.pick(raw_ops) : kind == K_CHAR ? r.pick(chr_ops) : r.pick(trk_ops);
 			op.a = r.below(4) | (r.below(4) << 8);      // handle, second handle
 			op.b = r.below(10) | (r.range(0, 2) << 8) | ((r.chance(1, 8) ? 1 : 0) << 12) | (r.below(10) << 16) | (r.range(0, 2) << 24); // position selector/delta, misalign, length selector/delta
 			op.c = r.below(100000);
 			if (allocf && r.chance(1, 4)) { op.fault = FL_ALLOC; op.fa = r.range(1, 3); }
-			else if (initf && r.chance(1, 4)) { op.fault = FL_INIT; op.fa = r.range(1, 6); }
+			else if (initf && r.chance(1, 4)) { op.fault = FL_INIT; op.fa = r.range(1, 6) | (r.chance(1, 3) ? 0x100 : 0); /* 0x100: every constructor call from there on fails */ }
 			p.ops.push_back(op);
 		}
 	}
@@ -186,7 +186,7 @@ struct ArraysWorld : World {
 			bool misaligned = mis && ES > 1;
 			if (misaligned) { if (op.c & 1) pos += 1 + (size_t) op.c % (ES - 1); else len += 1 + (size_t) op.c % (ES - 1); }
 			uint64_t failn = op.fault == FL_ALLOC ? (uint64_t) std::max<int64_t>(op.fa, 1) : 0;
-			T.init_calls = 0; T.fired = 0; T.fail_at = op.fault == FL_INIT ? (uint64_t) std::max<int64_t>(op.fa, 1) : 0;
+			T.init_calls = 0; T.fired = 0; T.fail_at = op.fault == FL_INIT ? (uint64_t) std::max<int64_t>(op.fa & 0xff, 1) : 0; T.fail_from = op.fault == FL_INIT && (op.fa & 0x100);
 			bool was_shared = shared(h);
 			std::vector<uint32_t> &m = M[h].v;
 			bool failed = false, typed_fail = false; uint64_t afired = 0;
@@ -428,6 +428,25 @@ struct ArraysWorld : World {
 				if (nb->_size < len) fail("state", "detach(%zu) gives capacity %zu", len, nb->_size);
 				// content is kept, or cut to the requested size when a new buffer had to be made (both keep the statement true)
 				{ size_t keep = (len + ES - 1) / ES; if (m.size() > keep && nb->_used / ES == keep) m.resize(keep); }
+				break;
+			}
+			case OP_RETYPE: {
+				// the handle first holds content of a plain type (raw bytes or characters), then is primed for the managed type:
+				// nothing of the old content may be taken for elements
+				if (kind != K_TRACKED) break;
+				{ Sut s; mpt_array_clone(AR(H[h]), 0); } M[h] = Model();
+				size_t nb = 1 + (size_t) op.c % 100;
+				bool aschar = (op.c & 1) != 0;
+				void *r0;
+				if (aschar) { Sut s; r0 = mpt_array_set(AR(H[h]), chartraits, nb, 0, 0); }
+				else { Sut s; r0 = mpt_array_append(AR(H[h]), nb, 0); }
+				if (!r0) { failed = true; break; }
+				memset(r0, 0x5a, nb);
+				buffer *r; { Sut s(failn); r = mpt_array_reserve(AR(H[h]), len, traits); afired = g.fired; }
+				log.ev("RETYPE %d %s content of %zu bytes -> managed type, reserve(%zu) -> %s used=%zu", h, aschar ? "character" : "raw", nb, len, r ? "ok" : "null", r ? (size_t) r->_used : 0);
+				if (!r) { { Sut s; mpt_array_clone(AR(H[h]), 0); } failed = true; break; }
+				if (r->_content_traits != traits) fail("state", "reserve did not set the requested element type");
+				M[h].has = true; M[h].v.clear();
 				break;
 			}
 			case OP_SWRITE: {
